@@ -8,6 +8,7 @@ import RbV.Model.QGramIndex
 import RbV.Model.QGramExact
 import RbV.Model.LcskFwd
 import RbV.Model.Lcskpp
+import RbV.Model.Sdpkpp
 /-! Driver for property C19 (line protocol → verdict).
 
 ```
@@ -275,7 +276,7 @@ def verdictLcs (ks mss out : String) : String :=
     | (none, tags) => "ok" ++ (if ms.length ≥ 2 && tags.contains "chain>=2" then " nt" else "") ++ " lcs" ++ String.join (tags.map (" " ++ ·))
   | _, _ => "bad-op lcs-parse"
 
-def sdpCheck (ms : List M) (k : Nat) (out : String) : Option String × List String :=
+def sdpCheck (ms : List M) (k : Nat) (par : Option (Nat × Nat × Nat)) (out : String) : Option String × List String :=
   match (outField out "sdp").bind parseNatList, (outField out "uni").bind parseNatList with
   | some p1, some p2 =>
     match chainVerdict "sdpkpp" ms k p1 with
@@ -283,19 +284,44 @@ def sdpCheck (ms : List M) (k : Nat) (out : String) : Option String × List Stri
     | none =>
       match chainVerdict "union" ms k p2 with
       | some r => (some ("reject " ++ r), [])
-      | none => (none, (if p1.length ≥ 2 then ["sdp-chain>=2"] else []) ++ (if p2 ≠ p1 then ["union-differs"] else []))
+      | none =>
+        -- mirror models of sdpkpp / the union (Thm.C19.sdpkpp_model_valid): proved to answer with a valid chain on every
+        -- strictly sorted list; which chain / which score the implementation returns is not fixed by the property ⇒ drift tags
+        let mdlTags : Option (List String) := match par with
+          | none => some []
+          | some (msc, go, ge) =>
+            match Model.Sdpkpp.sdpkpp ms k msc go ge, Model.Sdpkpp.unionPath ms k msc go ge with
+            | .ok r, .ok u =>
+              if !validChain ms k r.path || (!ms.isEmpty && r.path.isEmpty) then none else
+              some ((if r.path = p1 then ["sdp-model-path-agrees"] else ["drift-sdp-model-path"]) ++
+                (if u = p2 then ["union-model-agrees"] else ["drift-union-model"]) ++
+                (match (outField out "sdpscore").bind parseNat with
+                 | some sc => if sc = r.score then [] else ["drift-sdp-model-score"]
+                 | none => []) ++
+                (match (outField out "sdpf").bind parsePairs with
+                 | some dpf => if dpf = r.dp.map (fun c => (c.1, (c.2 + 1).toNat)) then ["sdp-model-dp-vector-agrees"] else ["drift-sdp-model-dp-vector"]
+                 | none => []))
+            | _, _ => none
+        match mdlTags with
+        | none => (some "bad-op sdpkpp-model", [])
+        | some mt => (none, (if p1.length ≥ 2 then ["sdp-chain>=2"] else []) ++ (if p2 ≠ p1 then ["union-differs"] else []) ++ mt)
   | _, _ => (some "bad-op sdp-output", [])
 
-def verdictSdp (ks mss out : String) : String :=
+def parsePar (a b c : String) : Option (Nat × Nat × Nat) :=
+  match parseNat a, parseNat b, parseNat c with
+  | some x, some y, some z => some (x, y, z)
+  | _, _, _ => none
+
+def verdictSdp (ks a b c mss out : String) : String :=
   match parseNat ks, parsePairs mss with
   | some k, some ms =>
     if k = 0 || !strictLex ms then "bad-op sdp-domain" else
-    match sdpCheck ms k out with
+    match sdpCheck ms k (parsePar a b c) out with
     | (some v, _) => panicOr out v
     | (none, tags) => "ok" ++ (if tags.contains "sdp-chain>=2" then " nt" else "") ++ " sdp" ++ String.join (tags.map (" " ++ ·))
   | _, _ => "bad-op sdp-parse"
 
-def verdictKmer (ks xh yh out : String) : String :=
+def verdictKmer (ks xh yh a b c out : String) : String :=
   match parseNat ks, parseHex xh, parseHex yh with
   | some k, some x, some y =>
     if k = 0 then "bad-op kmer-domain" else
@@ -308,7 +334,7 @@ def verdictKmer (ks xh yh out : String) : String :=
       match lcsCheck exp k out with
       | (some v, _) => v
       | (none, t1) =>
-        match sdpCheck exp k out with
+        match sdpCheck exp k (parsePar a b c) out with
         | (some v, _) => v
         | (none, t2) =>
           "ok" ++ (if exp.length ≥ 2 then " nt" else "") ++ " kmer" ++ (if exp.isEmpty then " no-match" else "")
@@ -345,9 +371,9 @@ def verdict (toks : List String) (out : String) : String :=
   match toks with
   | ["codes", a, q, t, xs] => verdictCodes a q t xs out
   | ["idx", a, q, mc, t, qs] => verdictIdx a q mc t qs out
-  | ["kmer", k, x, y, _, _, _] => verdictKmer k x y out
+  | ["kmer", k, x, y, a, b, c] => verdictKmer k x y a b c out
   | ["lcs", k, ms] => verdictLcs k ms out
-  | ["sdp", k, _, _, _, ms] => verdictSdp k ms out
+  | ["sdp", k, a, b, c, ms] => verdictSdp k a b c ms out
   | ["expand", k, mm, x, y, ms] => verdictExpand k mm x y ms out
   | _ => "bad-op arity"
 
